@@ -207,13 +207,25 @@ Section Walk.
            | KOther => ([], vis', [])
            end.
 
-  (* one task: visit_path = matches_dir, symlink_metadata, visit_entry *)
+  (* visit_path stats first (symlink_metadata) and then applies the directory filter matches_dir to the
+     parent of a regular file or of a symbolic link (no parent: not filtered) and to the path itself
+     for the other types (directory, other) *)
+  Definition filter_parent (p : path) : bool :=
+    match p with [] => true | _ => sel_dir (removelast p) end.
+  Definition filter_ok (nd : node) (p : path) : bool :=
+    match n_kind nd with
+    | KFile _ => filter_parent p
+    | KLink _ _ => filter_parent p
+    | _ => sel_dir p
+    end.
+
+  (* one task: visit_path = symlink_metadata, directory filter, visit_entry *)
   Definition step (vis : list path) (tk : task) : list task * list path * list path :=
     match lookup t (t_path tk) with
     | None => ([], vis, [])
     | Some nd =>
       match t_kind tk with
-      | TPath => if sel_dir (t_path tk) then visit_entry vis (t_path tk) nd (t_level tk) (t_stack tk) (t_dev tk)
+      | TPath => if filter_ok nd (t_path tk) then visit_entry vis (t_path tk) nd (t_level tk) (t_stack tk) (t_dev tk)
                  else ([], vis, [])
       | TEntry => visit_entry vis (t_path tk) nd (t_level tk) (t_stack tk) (t_dev tk)
       end
